@@ -764,6 +764,10 @@ def has_side_effect(node: ast.AST, safe_callable_whitelist: Collection[str] = fr
         if isinstance(node.func, ast.Attribute) and isinstance(node.func.value, ast.Constant):
             safe_callable_whitelist = safe_callable_whitelist | {node.func.attr}
 
+        # f()() calls what f returns, which is not known by name
+        if any(isinstance(child, ast.Call) for child in ast.walk(node.func)):
+            return True
+
         return (
             not all(
                 child.id in safe_callable_whitelist or child.id == "_"
